@@ -89,6 +89,10 @@ type linFn struct {
 	extra   []*lin                     // facts valid everywhere after their defining instruction (call post-conditions): guarded by dominance at use
 	extraAt []ssa.Instruction
 	canonM  map[ssa.Value]ssa.Value
+	// diseq: forms known to be different from 0 on entry of the block (x != k edges whose sign could not be decided when
+	// the facts were built: the sign may follow from facts that come later, e.g. the invariant i >= 0 of a range loop)
+	diseq        map[*ssa.BasicBlock][]*lin
+	pendingDiseq []*lin
 }
 
 // canon: two loads of the same field path of a local that is written only by the store of a parameter into it (a spilled
@@ -590,6 +594,7 @@ func (lf *linFn) condFacts(cond ssa.Value, truth bool) []*lin {
 		if d = y.sub(x); prove(d, nil, 0) {
 			return []*lin{d.add(linConst(-1))}
 		}
+		lf.pendingDiseq = append(lf.pendingDiseq, x.sub(y))
 	}
 	return nil
 }
@@ -601,6 +606,8 @@ func (lf *linFn) buildFacts() {
 	fn := lf.fn
 	// edge facts: succ block s of If-block p where s has exactly one predecessor
 	edgeFacts := map[*ssa.BasicBlock][]*lin{}
+	edgeDiseq := map[*ssa.BasicBlock][]*lin{}
+	lf.diseq = map[*ssa.BasicBlock][]*lin{}
 	for _, b := range fn.Blocks {
 		iff := ifOf(b)
 		if iff == nil || b.Succs[0] == b.Succs[1] {
@@ -610,15 +617,20 @@ func (lf *linFn) buildFacts() {
 			if len(s.Preds) != 1 {
 				continue
 			}
+			lf.pendingDiseq = nil
 			edgeFacts[s] = append(edgeFacts[s], lf.condFacts(iff.Cond, i == 0)...)
+			edgeDiseq[s] = append(edgeDiseq[s], lf.pendingDiseq...)
+			lf.pendingDiseq = nil
 		}
 	}
 	for _, b := range fn.Blocks {
-		var fs []*lin
+		var fs, ds []*lin
 		for d := b; d != nil; d = d.Idom() {
 			fs = append(fs, edgeFacts[d]...)
+			ds = append(ds, edgeDiseq[d]...)
 		}
 		lf.facts[b] = fs
+		lf.diseq[b] = ds
 	}
 }
 
@@ -699,6 +711,16 @@ func (lf *linFn) proveAt(goal *lin, in ssa.Instruction, depth int) bool {
 		return true
 	}
 	added := false
+	// an integer that is not zero and whose sign follows from the facts is at least one in absolute value
+	for _, d := range lf.diseq[in.Block()] {
+		if prove(d, facts, 0) {
+			facts = append(facts, d.add(linConst(-1)))
+			added = true
+		} else if nd := linConst(0).sub(d); prove(nd, facts, 0) {
+			facts = append(facts, nd.add(linConst(-1)))
+			added = true
+		}
+	}
 	// a value of an 8- or 16-bit unsigned type is bounded by its type
 	for _, x := range sortedAtoms(goal) {
 		q := goal.c[x]
